@@ -18,8 +18,9 @@ def is_tld_shape(tu):
     if not match: why.append('no path returns a class')
     for p in match:
         calls = [c for c in p.calls() if c[1] not in ('__ctype_b_loc',)]
-        if len(calls) != 1 or calls[0][1] != 'strncasecmp':
-            why.append(f'class returned after calls {[c[1] for c in calls]} (want exactly one strncasecmp)'); continue
+        if not calls or any(c[1] != 'strncasecmp' for c in calls) or any(not p.passed(c[3], True) for c in calls[:-1]):
+            why.append(f'class returned after calls {[c[1] for c in calls]} (want strncasecmp per row, all earlier rows not matching)'); continue
+        calls = calls[-1:]
         a = calls[0][2]
         row = None
         for x, y in ((a[0], a[1]), (a[1], a[0])):
@@ -29,19 +30,20 @@ def is_tld_shape(tu):
         if a[2] != f'{row}->length': why.append(f'compared length is {a[2]} (want {row}->length)')
         if not p.passed(calls[0][3], False): why.append('class returned although strncasecmp result is not tested == 0')
         if p.ret()[1] != f'{row}->type': why.append(f'returns {p.ret()[1]} (want {row}->type)')
-        if row != 'tld_list': why.append(f'search starts at {row} (want tld_list, the first row)')
+        if row != 'tld_list' and not re.fullmatch(r"\w+@L\d+'*", row): why.append(f'search starts at {row} (want tld_list, the first row)')
         if not p.passed(f'{row}->domain', True): why.append('row used without the sentinel test <row>->domain != NULL')
     for p in other:
         r = p.ret()
         if r is None or r[1] != '-EEAV_TLD_INVALID': why.append(f'non-class exit returns {r[1] if r else None}')
     loops = [e for p in paths for e in p.events if e[0] == 'loop' and e[1].endswith(':backedge')]
     if not loops: why.append('no loop over the table')
+    if not any(p.passed('tld_list->domain', True) for p in match): why.append('the first row is not examined')
     for p in paths:
         i = p.index(lambda e: e[0] == 'loop' and e[1].endswith(':backedge'))
         if i >= 0:
             st = [e for e in p.events[:i] if e[0] == 'set' and e[1] == _itervar(p)]
             if not st or st[-1][2] != '(tld_list + 1)': why.append(f'iteration step is {st[-1][2] if st else None} (want +1 row)')
-            if not any(e[0] == 'cond' and re.fullmatch(r'.+@L\d+->domain', e[1]) and e[2] is False for e in p.events[i:]):
+            if p.ret() and str(p.ret()[1]).startswith('-') and not any(e[0] == 'cond' and re.fullmatch(r".+@L\d+'*->domain", e[1]) and e[2] is False for e in p.events[i:]):
                 why.append('loop does not end at the NULL-domain sentinel')
     if not any(p.passed(f'({start} == {end})', True) and p.ret()[1] == '-EEAV_TLD_INVALID' for p in paths):
         why.append('empty label (start == end) is not rejected first')
@@ -68,3 +70,39 @@ def value_is_zero(p, v):
     if v in ('0', 'EEAV_NO_ERROR'): return True
     if v is None: return False
     return (p.passed(f'({v} != EEAV_NO_ERROR)', False) or p.passed(f'({v} == EEAV_NO_ERROR)', True) or p.passed(v, False))
+
+
+def literal_family(p):
+    """for a path through the address-literal branch: is the literal validated, and which family does the path
+    *establish* (R5.3)?  is_ipv4()/is_ipv6() establish their own family; is_ipaddr() accepts either, so the path must
+    also have searched its argument range for ':' and branched on the result."""
+    V = [c for c in p.calls() if c[1] in ('is_ipaddr', 'is_ipv4', 'is_ipv6')]
+    valid = bool(V) and all(p.passed(c[3], True) for c in V)
+    if not valid: return {'valid': False, 'family': None, 'why': ''}
+    c = V[-1]
+    if c[1] == 'is_ipv4': return {'valid': True, 'family': 'is_ipv4', 'why': ''}
+    if c[1] == 'is_ipv6': return {'valid': True, 'family': 'is_ipv6', 'why': ''}
+    for s in p.calls():
+        if s[1] in ('strchr', 'memchr', 'strrchr') and len(s[2]) >= 2 and s[2][1] == "':'" and s[2][0] == c[2][0]:
+            if p.passed(s[3], True): return {'valid': True, 'family': 'is_ipv6', 'why': ''}
+            if p.passed(s[3], False): return {'valid': True, 'family': 'is_ipv4', 'why': ''}
+    return {'valid': True, 'family': None,
+            'why': f'literal accepted through {c[1]}{c[2]}, which accepts IPv4 and IPv6, and the path does not establish the family before setting the flag'}
+
+
+def ptr_off(expr):
+    """normalise a rendered pointer expression  ((X + a) + b) - c ...  to (X, a + b - c)"""
+    e = expr.strip(); off = 0
+    while True:
+        m = re.fullmatch(r'\((.+) ([+-]) (\d+)\)', e)
+        if not m: break
+        inner = m.group(1)
+        d = 0; ok = True
+        for ch in inner:
+            if ch == '(': d += 1
+            elif ch == ')':
+                d -= 1
+                if d < 0: ok = False; break
+        if not ok or d != 0: break
+        off += int(m.group(3)) * (1 if m.group(2) == '+' else -1); e = inner
+    return e, off
